@@ -177,7 +177,8 @@ def d_table(draw, n_min=8, n_max=24, d_min=1, d_max=3):
     n = draw(st.integers(n_min, n_max))
     d = draw(st.integers(d_min, d_max))
     cell = st.integers(-32, 32).map(lambda v: v / 4.0)
-    X = [[draw(cell) for _ in range(d)] for _ in range(n)]
+    # a small ramp on the first column keeps the table from degenerating into identical rows (zero variance)
+    X = [[draw(cell) + (i / 8.0 if j == 0 else 0.0) for j in range(d)] for i in range(n)]
     return n, d, X
 
 
@@ -255,7 +256,7 @@ def materialize(data):
         return df, None, None
     X = np.array(data["X"], dtype=np.float64)
     y = None if data["y"] is None else np.array(data["y"])
-    if y is not None and kind in ("reg", "ts"):
+    if y is not None and kind in ("reg", "ts", "target"):
         y = y.astype(np.float64)
     w = None if data.get("w") is None else np.array(data["w"], dtype=np.float64)
     return X, y, w
@@ -288,6 +289,10 @@ class Entry:
 
     def data(self, draw):
         return {"reg": d_reg, "clf": d_clf, "cluster": d_cluster, "nmf": d_nmf, "text": d_text, "frame": d_frame, "ts": d_ts}[self.kind](draw)
+
+    def probe(self, data, X, y):
+        """rows the fingerprint is taken on"""
+        return subset(X, list(range(min(6, nrows(X)))))
 
     def fit(self, est, X, y, w):
         if self.kind in ("cluster", "nmf", "text", "frame"):
@@ -335,6 +340,14 @@ class _QLR(Entry):
     def spec(self, draw):
         return dict(cls=self.name, params=dict(quantile=draw(st.sampled_from([0.5, 0.25, 0.75, 0.1])), max_iter=draw(st.sampled_from([3, 10])),
                                                fit_intercept=draw(st.booleans()), positive=draw(st.booleans()), delta=draw(st.sampled_from([1e-4, 1e-3]))))
+
+    def data(self, draw):
+        # the statement's domain: continuous noise (no residual is exactly zero, otherwise IRLS weights vanish)
+        d = d_reg(draw)
+        n = len(d["y"])
+        noise = draw(st.lists(st.integers(-999983, 999983).filter(lambda v: v != 0), min_size=n, max_size=n, unique=True))
+        d["y"] = [v + e / 1e6 for v, e in zip(d["y"], noise)]
+        return d
 
     def attributes(self, est):
         return dict(coef_=est.coef_, intercept_=est.intercept_)
@@ -610,6 +623,48 @@ class _TT(Entry):
                                                copy_estimator=draw(st.booleans()), trainable=True))
 
 
+
+@register
+class _PRT(Entry):
+    """target transformer: fit(None, y), transform(X, y) -> (X, codes); closest=True maps unseen labels to the nearest seen one"""
+    name = "PermutationReciprocalTransformer"
+    kind = "target"
+    methods = ("transform_y",)
+    uses_weights = False
+
+    def spec(self, draw):
+        return dict(cls=self.name, params=dict(random_state=draw(st.one_of(st.none(), st.integers(0, 9))), closest=draw(st.booleans())))
+
+    def data(self, draw):
+        k = draw(st.integers(2, 5))
+        pool = draw(st.lists(st.integers(-20, 40), min_size=k, max_size=k, unique=True))
+        n = draw(st.integers(k, 12))
+        z = [draw(st.integers(0, k - 1)) for _ in range(n)]
+        for i in range(k):
+            z[i] = i
+        return dict(kind="target", X=[[float(i)] for i in range(n)], y=[pool[i] + 0.5 for i in z], w=None,
+                    unseen=[draw(st.integers(-25, 45)) + 0.25 for _ in range(3)])
+
+    def fit(self, est, X, y, w):
+        return est.fit(None, np.asarray(y, dtype=np.float64))
+
+    def probe(self, data, X, y):
+        return np.array(list(y[:4]) + list(data.get("unseen", [])), dtype=np.float64)
+
+    def available(self, est):
+        return ["transform_y"]
+
+    def call(self, est, method, Z):
+        # Z is a vector of labels here; without closest=True an unseen label is a documented refusal: only seen labels are sent
+        Z = np.asarray(Z, dtype=np.float64)
+        if not est.closest:
+            Z = np.array([z for z in Z.tolist() if z in est.permutation_], dtype=np.float64)
+        return np.asarray(est.transform(None, Z)[1], dtype=np.float64)
+
+    def attributes(self, est):
+        return dict(permutation_=sorted((float(k), int(v)) for k, v in est.permutation_.items()))
+
+
 # classes covered for the parameter protocol only (C01) --------------------------------------------------------------
 PARAM_ONLY = {}
 
@@ -634,11 +689,6 @@ def _p_frt(draw, flavour=0):
     if flavour % 2 == 0:
         return dict(cls="FunctionReciprocalTransformer", params=dict(fct=draw(st.sampled_from(["log", "exp", "log1p", "expm1"]))))
     return dict(cls="FunctionReciprocalTransformer", params=dict(fct={"fn": "np.log1p"}, fct_inv={"fn": "np.expm1"}))
-
-
-@param_only("PermutationReciprocalTransformer")
-def _p_prt(draw):
-    return dict(cls="PermutationReciprocalTransformer", params=dict(random_state=draw(st.one_of(st.none(), st.integers(0, 9))), closest=draw(st.booleans())))
 
 
 def _p_skbase(name):
